@@ -46,7 +46,7 @@ macro_rules! chain_harnesses {
                 let (ch, r) = heads.into_raw_parts_for_verification();
                 St { comp: pos.compressed, rem: pos.remainders, ch: ch.get(), r }
             }
-            fn inv(s: &St) -> bool { s.ch != 0 && (s.r as u128) >= (1u128 << (SB - WB - P as u32)) && (s.r as u128) < (1u128 << (SB - P as u32)) }
+            pub fn inv(s: &St) -> bool { s.ch != 0 && (s.r as u128) >= (1u128 << (SB - WB - P as u32)) && (s.r as u128) < (1u128 << (SB - P as u32)) }
 
             /// layer-A spec of the compressed side of one decode: the next P-bit chunk of the bit
             /// string (head bits below the marker, refilled from the top word).
@@ -133,6 +133,44 @@ macro_rules! chain_harnesses {
                         assert!(s.ch == 1, "C13/C14: a fresh chain coder must start with an empty compressed head");
                         assert!(s.r as u128 == head && s.comp.n == n, "C13/C14: remainders head must take the fewest words that reach its lower bound");
                         assert!(s.rem.n == 0, "C13: a fresh chain coder must start with empty remainders");
+                    }
+                }
+            }
+
+            /// C13: the export routes from ANY whole head state: into_compressed appends ALL words of the
+            /// remainders head (low word first, until nothing is left) to the compressed side;
+            /// into_binary succeeds exactly when the head's marker bit sits on a word boundary and then
+            /// appends the words below the marker (also zero words); remainders are handed back as they are.
+            #[cfg_attr(kani, kani::proof)]
+            #[cfg_attr(kani, kani::unwind(8))]
+            pub fn exports() {
+                let s0 = any_state();
+                assume(s0.ch == 1 && s0.comp.n <= 1);
+                let bin: bool = any();
+                let c = mk(&s0);
+                let r = s0.r as u128;
+                let mut exp = [0 as W; 8]; let mut k = 0;
+                let mut i = 0; while i < s0.comp.n { exp[k] = s0.comp.buf[i]; k += 1; i += 1; }
+                if bin {
+                    let marker = 127 - r.leading_zeros() as usize;
+                    let whole = marker % WB as usize == 0;
+                    let mut v = r; while v > 1 && whole { exp[k] = (v & ((1u128 << WB) - 1)) as W; k += 1; v >>= WB; }
+                    match c.into_binary() {
+                        Ok((rem, comp)) => {
+                            assert!(whole, "C13: into_binary accepted a head whose marker is not on a word boundary");
+                            assert!(comp.0.n == k && rem.0.n == s0.rem.n, "C13: into_binary returns the wrong number of words");
+                            let mut i = 0; while i < k { assert!(comp.0.buf[i] == exp[i], "C13: into_binary words differ from compressed ++ head words below the marker"); i += 1; }
+                        }
+                        Err(_) => assert!(!whole, "C13: into_binary refused a whole head"),
+                    }
+                } else {
+                    let mut v = r; while v != 0 { exp[k] = (v & ((1u128 << WB) - 1)) as W; k += 1; v >>= WB; }
+                    match c.into_compressed() {
+                        Ok((rem, comp)) => {
+                            assert!(comp.0.n == k && rem.0.n == s0.rem.n, "C13: into_compressed returns the wrong number of words");
+                            let mut i = 0; while i < k { assert!(comp.0.buf[i] == exp[i], "C13: into_compressed words differ from compressed ++ all words of the head"); i += 1; }
+                        }
+                        Err(_) => assert!(false, "C13: into_compressed refused a whole coder"),
                     }
                 }
             }
@@ -230,6 +268,7 @@ pub fn precision_change_u8_u16() {
     let s0 = u8_u16_p3::any_state();
     let c = u8_u16_p3::mk(&s0);
     let c5 = match c.change_precision::<5>() { Ok(c) => c, Err(_) => return };
+    if group(2) == 1 { assert!(u8_u16_p5::inv(&u8_u16_p5::obs(&c5)), "C13/C10/C20: head invariant lost by a precision change (the next decode may overflow)"); return; }
     let c3 = match c5.change_precision::<3>() { Ok(c) => c, Err(_) => { assert!(false, "C13: undoing a precision change failed"); return; } };
     let s1 = u8_u16_p3::obs(&c3);
     assert!(s1.ch == s0.ch && s1.r == s0.r && s1.comp.n == s0.comp.n && s1.rem.n == s0.rem.n, "C13: precision change P->P'->P is not the identity");
